@@ -96,6 +96,23 @@ def prime():
                 break
 
 
+_PINNED = {}
+
+
+def _pinned_tokens(c):
+    """tokens of the pinned tree's table (vf/ref_enums.json) that shares the most tokens with this element's declared ones"""
+    import json
+    import os
+
+    if not _PINNED:
+        with open(os.path.join(os.path.dirname(os.path.dirname(os.path.abspath(__file__))), "ref_enums.json")) as f:
+            for k, v in json.load(f).items():
+                _PINNED.setdefault(frozenset(v), v)
+    own = {str(x) for x in c.params}
+    best = max(_PINNED, key=lambda fs: len(fs & own), default=None)
+    return set(best) if best is not None and len(best & own) >= 0.8 * len(own) else None
+
+
 def leaf_ok(c, text):
     t = c.typ
     if not isinstance(text, str) or text == "":
@@ -112,7 +129,16 @@ def leaf_ok(c, text):
     if t == "Decimal":
         return None if R.decimal_lexical_ok(text) else "not plain decimal notation"
     if t == "OneOf":
-        return None if text in [str(x) for x in c.params] else "not a declared token"
+        if text not in [str(x) for x in c.params]:
+            return "not a declared token"
+        pinned = _pinned_tokens(c)
+        if pinned and text not in pinned:
+            widths = {len(x) for x in pinned}
+            if any(text == a + b for a in pinned for b in pinned if text.startswith(a)):
+                return "two tokens of the pinned table run together"
+            if len(widths) == 1 and len(text) > next(iter(widths)) and (text[: next(iter(widths))] in pinned or text[-next(iter(widths)) :] in pinned):
+                return "a token of a fixed-width code table run together with another one"
+        return None
     if t == "String":
         return None if c.params is None or len(text) <= c.params else f"longer than {c.params}"
     if t == "NagString":
@@ -331,7 +357,7 @@ def run(ctx):
         "distinct_nontrivial": tally.counts.get("values", 0),
         "rule": "every class x every data element x trouble values of its type (Decimal: zeros, +/- exponents, normalize(), NaN, sNaN, +-Infinity (as Decimal, float and tuple), floats, 29 and 30 significant "
         "digits; Integer: 0, -1, +-limit, True; String: markup, non-ASCII, CDATA delimiters, entity text, '&' followed by a word and ';', values spelling entities, at the limit, over it through leading / trailing white space; DateTime/Time: 7 zones (incl. offsets with 5 and 6 minutes) with sub-ms parts and carries; "
-        "Bool; every enumeration token, and 8 tokens of other enumerations - accepted there first - which must be refused) set by keyword on the smallest instance; leaf texts of to_etree() checked against the lexical rule, then all 6 wire forms read by the "
+        "Bool; every enumeration token (none of them two codes of a pinned table run together), and 8 tokens of other enumerations - accepted there first - which must be refused) set by keyword on the smallest instance; leaf texts of to_etree() checked against the lexical rule, then all 6 wire forms read by the "
         "strict reference reader (well-formed, entities only, same data); ElementList classes: invalid members added through append/insert/extend/+= must be refused when written; "
         "distinct_nontrivial = (class, element, value) triples",
         "elements": tally.counts.get("elements", 0),
